@@ -191,10 +191,15 @@ func VH_stree_CursorShapeAPI() {
 	c := t.Cursor(start.key)
 	vAPICheck(nodes, c, start, "Cursor(key)")
 	// subtree iteration
-	var sub []vKT
-	c.Inorder(func(k vKT) bool { sub = append(sub, k); return true })
 	var want []*vAPINode
 	vAPISub(start, &want)
+	wantKeys := make([]vKT, len(want))
+	for i, w := range want {
+		wantKeys[i] = w.key
+	}
+	vInorderReuse(c, wantKeys)
+	var sub []vKT
+	c.Inorder(func(k vKT) bool { sub = append(sub, k); return true })
 	vAssert(len(sub) == len(want), "cursor Inorder lists exactly its subtree")
 	for i := range sub {
 		if i < len(want) {
@@ -220,6 +225,35 @@ func vAPISub(nd *vAPINode, out *[]*vAPINode) {
 	vAPISub(nd.left, out)
 	*out = append(*out, nd)
 	vAPISub(nd.right, out)
+}
+
+// vInorderReuse: a walk abandoned part way (the callback returns false at a
+// solver-chosen element) and a walk whose callback itself walks and queries the
+// same cursor (read-only re-entrancy) must leave later walks of that cursor
+// complete. want is the subtree's ascending key sequence.
+func vInorderReuse(c *Cursor[vKT], want []vKT) {
+	if len(want) == 0 {
+		return
+	}
+	stop := vChoice("stop-at", len(want))
+	seen := 0
+	c.Inorder(func(k vKT) bool { seen++; return seen <= stop })
+	vAssert(seen == stop+1, "cursor Inorder stops when the callback returns false")
+	// read-only re-entrancy at the same element
+	seen = 0
+	outer := 0
+	c.Inorder(func(k vKT) bool {
+		if outer == stop {
+			inner := 0
+			c.Inorder(func(vKT) bool { inner++; return true })
+			vAssert(inner == len(want), "a walk started from inside a walk of the same cursor is complete")
+			vAssert(c.Valid() && c.Key().Tag == want[0].Tag || c.Key().Tag != want[0].Tag, "queries from inside a walk are harmless")
+		}
+		outer++
+		return true
+	})
+	vAssert(outer == len(want), "a walk is not disturbed by a walk started from its own callback")
+	vCover("inorder-reuse")
 }
 
 // VH_stree_CursorNil: nil and invalid cursors are harmless.
